@@ -1225,8 +1225,23 @@ pub mod verif_hooks {
         n_children: usize,
         top_level: i32,
     ) -> (bool, i32, i32, usize, usize) {
+        force_return_tokens_probe_ext(my_tokens, cheats, n_children, top_level, false, 0)
+    }
+
+    /// Like `force_return_tokens_probe`, for a server that made its own cheat
+    /// pipe (`own_cheat_pipe`) and whose token pipe already holds `pipe_tokens`
+    /// tokens.  The fourth result is what the token pipe holds afterwards.
+    pub fn force_return_tokens_probe_ext(
+        my_tokens: i32,
+        cheats: i32,
+        n_children: usize,
+        top_level: i32,
+        own_cheat_pipe: bool,
+        pipe_tokens: usize,
+    ) -> (bool, i32, i32, usize, usize) {
         let token_fds = make_pipe(100).expect("token pipe");
         let cheat_fds = make_pipe(102).expect("cheat pipe");
+        write_tokens(token_fds.1, pipe_tokens).expect("fill token pipe");
         let mut state = ServerState::default();
         state.my_tokens = my_tokens;
         state.cheats = cheats;
@@ -1246,6 +1261,7 @@ pub mod verif_hooks {
                 token_fds,
                 cheat_fds,
                 top_level,
+                own_cheat_pipe,
             }),
             state: Rc::new(RefCell::new(state)),
             dropped: false,
